@@ -85,6 +85,10 @@ func buildVocab() *Vocab {
 		mustTmp("p", T2z),
 		// anchors inside one second with different printed precision (appended: indices above stay stable)
 		mustTmp("p", T1.Add(500*time.Millisecond)), mustTmp("p", T1.Add(250*time.Millisecond)), mustTmp("p", T1.Add(255*time.Millisecond)),
+		// boundary instants (indices 12-15; only the store-level harnesses use them, see genUniverseX): Go's zero time,
+		// the Unix epoch (UnixNano()==0), the last nanosecond before it, the last nanosecond of year 9999
+		mustTmp("p", time.Time{}.UTC()), mustTmp("p", time.Unix(0, 0).UTC()),
+		mustTmp("q", time.Date(1969, 12, 31, 23, 59, 59, 999999999, time.UTC)), mustTmp("p", time.Date(9999, 12, 31, 23, 59, 59, 999999999, time.UTC)),
 	}
 	v.PredsClean = 8
 	v.Objs = []*triple.Object{
@@ -134,6 +138,13 @@ func genUniverse(r *Rand, n int, rich, collide bool) []TSpec {
 // genUniverseZ: zones=false leaves out the values that are the same instant
 // written in another zone.
 func genUniverseZ(r *Rand, n int, rich, collide, zones bool) []TSpec {
+	return genUniverseX(r, n, rich, collide, zones, false)
+}
+
+// genUniverseX: extreme=true adds predicates anchored at boundary instants (zero time, Unix epoch, just before it,
+// end of year 9999) next to the same identifiers at ordinary instants. Instants outside the int64 nanosecond range
+// are only meaningful to harnesses that compare anchors as time.Time values (store level: C01, C02, C09).
+func genUniverseX(r *Rand, n int, rich, collide, zones, extreme bool) []TSpec {
 	ns := 2 + r.Intn(2)
 	subj := pickDistinct(r, V.NodesClean, ns)
 	preds := pickDistinct(r, V.PredsClean, 2+r.Intn(3))
@@ -156,6 +167,12 @@ func genUniverseZ(r *Rand, n int, rich, collide, zones bool) []TSpec {
 		if r.Bool() {
 			subj = append(subj, 4+r.Intn(2))
 		}
+	}
+	if extreme {
+		for _, k := range pickDistinct(r, 4, 1+r.Intn(3)) {
+			preds = append(preds, 12+k)
+		}
+		preds = append(preds, 2+r.Intn(3), 5)
 	}
 	if collide {
 		if r.Bool() {
@@ -208,7 +225,16 @@ func predKey(p *predicate.Predicate) string {
 		return "I|" + string(p.ID())
 	}
 	ta, _ := p.TimeAnchor()
-	return fmt.Sprintf("T|%s|%d", string(p.ID()), ta.UnixNano())
+	return fmt.Sprintf("T|%s|%s", string(p.ID()), instKey(*ta))
+}
+
+// instKey identifies an instant. Inside the int64 nanosecond range it is the familiar UnixNano value; outside
+// (year 1, year 9999) seconds and nanoseconds are kept apart so that nothing wraps around.
+func instKey(t time.Time) string {
+	if y := t.UTC().Year(); y >= 1700 && y <= 2200 {
+		return fmt.Sprint(t.UnixNano())
+	}
+	return fmt.Sprintf("%ds%09d", t.Unix(), t.Nanosecond())
 }
 
 func litKey(l *literal.Literal) string {
